@@ -1,4 +1,5 @@
 import Gtree.Lemmas.EntryFacts
+import Gtree.Lemmas.HeapArena
 import Gtree.Model.Programmable
 /-
   C13 — results depend only on the tree, not on call history.
@@ -92,4 +93,28 @@ theorem C13_facts_entry_points_configuration : Facts.entryConfig = expectedEntry
     `OutputProgrammably`, `MkdirProgrammably`, `VerifyProgrammably`, `WalkProgrammably`, `WalkIterProgrammably`) has, word for
     word, the body of the function that replaces it. -/
 theorem C13_facts_aliases_identical : Facts.aliasBodiesEqual.all (fun e => e.2) = true := aliases_identical
+end Gtree
+
+namespace Gtree
+/-- Tie to the source, pointer code included (heap mode of /verif/translate, regenerated on every run): `NewRoot` and
+    `(*Node).Add` of tree_handler_programmably.go with `newNode` of node.go and the package-level `idxCounter`, translated
+    over an explicit heap (`&Node{…}` takes the allocator's next pointer; the counter is a world component), ARE the
+    operations of the arena model (`Model/Programmable.lean`): with node `i` of the arena at pointer `i + 1`
+    (`SrcH.StoreRel`), `NewRoot` is `Store.newRoot` and `Add` on an allocated node is `Store.add` — the existing child of
+    that name (the FIRST one) is returned and nothing is written, or a new node one level deeper, stamped with the next
+    counter value, becomes the parent's last child — and the representation is kept.  `C13_tree_ignores_history` and `C13_result_ignores_history` re-stamp the `index` fields and the counter of exactly this arena; that no other package-level variable exists is a regenerated fact. -/
+theorem C13_arena_is_the_source (h : SrcH.Heap) (al : Nat) (idx : Int) (s : Store) (hrel : SrcH.StoreRel h al idx s) :
+    (∀ name, (SrcH.NewRoot h al idx name).2.2.2 = (s.newRoot name).2 + 1 ∧
+      SrcH.StoreRel (SrcH.NewRoot h al idx name).1 (SrcH.NewRoot h al idx name).2.1 (SrcH.NewRoot h al idx name).2.2.1
+        (s.newRoot name).1) ∧
+    (∀ pid name, pid < s.nodes.length →
+      (s.add pid name).2 = some ((SrcH.Node.Add h al idx (pid + 1) name).2.2.2 - 1) ∧
+      (SrcH.Node.Add h al idx (pid + 1) name).2.2.2 ≠ 0 ∧
+      SrcH.StoreRel (SrcH.Node.Add h al idx (pid + 1) name).1 (SrcH.Node.Add h al idx (pid + 1) name).2.1
+        (SrcH.Node.Add h al idx (pid + 1) name).2.2.1 (s.add pid name).1) :=
+  ⟨fun name => SrcH.NewRoot_refines h al idx s name hrel,
+   fun pid name hp => SrcH.Add_refines h al idx s pid name hrel hp⟩
+
+/-- the empty arena is represented by any heap with the allocator at pointer 1 and the counter at 0 -/
+example (h : SrcH.Heap) : SrcH.StoreRel h 1 0 {} := ⟨rfl, rfl, by intro i n hn; simp at hn, by intro i n hn; simp at hn⟩
 end Gtree
